@@ -333,7 +333,7 @@ pub fn build(kind: &str, recv: &str, other: &str, nargs: usize) -> Option<Progra
 }
 
 /// negative cases: (name, source) that must be rejected with a diagnostic (never accepted, never a panic)
-const BOUND_HEAD: &str = "trait Tr { fn m(Self) -> string; }\ntrait Tq { fn q(Self) -> string; }\nstruct Sb { a: int32 }\nstruct Nb { a: int32 }\nstruct Bx[T] { v: T }\nimpl Tr for Sb { fn m(self: Sb) -> string { \"s\" } }\nimpl Tq for Sb { fn q(self: Sb) -> string { \"q\" } }\nimpl Tr for int32 { fn m(self: int32) -> string { \"i\" } }\nimpl Tr for Bx[int32] { fn m(self: Bx[int32]) -> string { \"b\" } }\nimpl Tr for (int32, bool) { fn m(self: (int32, bool)) -> string { \"t\" } }\nfn need[U: Tr](u: U) -> string { Tr::m(u) }\nfn both[U: Tr + Tq](u: U) -> string { Tr::m(u) + Tq::q(u) }\nfn second[A, B: Tr](a: A, b: B) -> string { Tr::m(b) }\n";
+const BOUND_HEAD: &str = "trait Tr { fn m(Self) -> string; }\ntrait Tq { fn q(Self) -> string; }\nstruct Sb { a: int32 }\nstruct Nb { a: int32 }\nstruct Bx[T] { v: T }\nimpl Tr for Sb { fn m(self: Sb) -> string { \"s\" } }\nimpl Tq for Sb { fn q(self: Sb) -> string { \"q\" } }\nimpl Tr for int32 { fn m(self: int32) -> string { \"i\" } }\nimpl Tr for Bx[int32] { fn m(self: Bx[int32]) -> string { \"b\" } }\nimpl Tr for (int32, bool) { fn m(self: (int32, bool)) -> string { \"t\" } }\nfn need[U: Tr](u: U) -> string { Tr::m(u) }\nfn both[U: Tr + Tq](u: U) -> string { Tr::m(u) + Tq::q(u) }\nfn second[A, B: Tr](a: A, b: B) -> string { Tr::m(b) }\nimpl Sb { fn with[W: Tr](self: Sb, w: W) -> string { Tr::m(w) } fn make[W: Tr](w: W) -> string { Tr::m(w) } }\nimpl[T] Bx[T] { fn describe[W: Tr](self: Bx[T], w: W) -> string { Tr::m(w) } }\n";
 
 /// (name, the rest of the program, whether the bounds are satisfied)
 fn bound_calls() -> Vec<(&'static str, &'static str, bool)> {
@@ -362,6 +362,19 @@ fn bound_calls() -> Vec<(&'static str, &'static str, bool)> {
         ("inside-a-closure-with-impl", "fn main() { let c = |k: int32| need(k); string_println(c(1)) }\n", true),
         ("inside-a-closure-without-impl", "fn main() { let c = |k: bool| need(k); string_println(c(true)) }\n", false),
         ("result-of-a-generic-call-with-impl", "fn idg[T](x: T) -> T { x }\nfn main() { string_println(need(idg(1))) }\n", true),
+        // bounds on the type parameters of methods: dot form, path form, associated function, method of a generic impl
+        ("method-dot-with-impl", "fn main() { let s = Sb { a: 1 }; string_println(s.with(1)) }\n", true),
+        ("method-dot-without-impl", "fn main() { let s = Sb { a: 1 }; string_println(s.with(true)) }\n", false),
+        ("method-path-with-impl", "fn main() { let s = Sb { a: 1 }; string_println(Sb::with(s, 1)) }\n", true),
+        ("method-path-without-impl", "fn main() { let s = Sb { a: 1 }; string_println(Sb::with(s, \"x\")) }\n", false),
+        ("associated-function-with-impl", "fn main() { string_println(Sb::make(Sb { a: 2 })) }\n", true),
+        ("associated-function-without-impl", "fn main() { string_println(Sb::make(Nb { a: 2 })) }\n", false),
+        ("method-of-a-generic-impl-dot-with-impl", "fn main() { let b: Bx[bool] = Bx { v: true }; string_println(b.describe(1)) }\n", true),
+        ("method-of-a-generic-impl-dot-without-impl", "fn main() { let b: Bx[bool] = Bx { v: true }; string_println(b.describe(true)) }\n", false),
+        ("method-of-a-generic-impl-path-without-impl", "fn main() { let b: Bx[bool] = Bx { v: true }; string_println(Bx::describe(b, \"x\")) }\n", false),
+        ("method-inside-a-generic-caller-with-the-bound", "fn via[V: Tr](v: V) -> string { let s = Sb { a: 1 }; s.with(v) }\nfn main() { string_println(via(1)) }\n", true),
+        ("method-inside-a-generic-caller-without-the-bound", "fn via[V](v: V) -> string { let s = Sb { a: 1 }; s.with(v) }\nfn main() { string_println(via(1)) }\n", false),
+        ("method-as-a-value-without-impl", "fn main() { let f: (Sb, bool) -> string = Sb::with; string_println(f(Sb { a: 1 }, true)) }\n", false),
         ("result-of-a-generic-call-without-impl", "fn idg[T](x: T) -> T { x }\nfn main() { string_println(need(idg(true))) }\n", false),
     ]
 }
